@@ -39,7 +39,8 @@ Proof.
   intro Hne. unfold db_update. destruct (assoc st db); apply assoc_aset_other; congruence.
 Qed.
 Lemma db_update_same db st info :
-  assoc st (db_update db st info) = Some (match assoc st db with Some cur => dict_update cur info | None => info end).
+  assoc st (db_update db st info) =
+  Some (match assoc st db with Some cur => dict_update cur (keep_nonce cur info) | None => info end).
 Proof. unfold db_update. destruct (assoc st db); apply assoc_aset_same. Qed.
 
 (* ---- serialisation of a stored response keeps the parameters that matter ---- *)
@@ -283,7 +284,8 @@ Section WithHash.
            verify_id_token lhash (svc_kwargs (cl_cfg c)) false None None t now = Ok vd /\
            assoc (PS "nonce") vd = Some (VStr n) /\ assoc n (cl_map c) = Some st /\
            assoc (PS "sub") vd = Some (VStr sub) /\ cl_map c' = aset sub st (cl_map c) /\
-           sub_clash (cl_db c) (cl_map c) st sub = false) /\
+           sub_clash (cl_db c) (cl_map c) st sub = false /\
+           assoc (PS "nonce") rec = Some (VStr n)) /\
       (assoc (verified_name (PS "id_token")) stored = None -> cl_map c' = cl_map c).
   Proof.
     unfold step_token. intro H.
@@ -304,6 +306,11 @@ Section WithHash.
       destruct (assoc (PS "nonce") vd) as [[| | |n| | |]|] eqn:En; try (pair_absurd H).
       destruct (assoc n (cl_map c)) as [s|] eqn:Emap; try (pair_absurd H).
       destruct (str_eqb s st) eqn:Es; try (pair_absurd H). apply str_eqb_eq in Es. subst s.
+      destruct (negb (option_eqb pyval_eqb (assoc (PS "nonce") rec) (Some (VStr n)))) eqn:Ercn; try (pair_absurd H).
+      apply negb_false_iff in Ercn.
+      assert (Hrn : assoc (PS "nonce") rec = Some (VStr n)).
+      { destruct (assoc (PS "nonce") rec) as [v0|]; cbn in Ercn; try discriminate.
+        apply pyval_eqb_vstr_r in Ercn. congruence. }
       destruct (assoc (PS "sub") vd) as [[| | |sub| | |]|] eqn:Esub; try (pair_absurd H).
       destruct (sub_clash (cl_db c) (cl_map c) st sub) eqn:Eclash; try (pair_absurd H).
       destruct (with_expires_at (resp_to_dict token_resp_params d1) now) as [s0| |] eqn:Ew; try (pair_absurd H).
@@ -503,7 +510,7 @@ Section World.
     right. destruct (step_token_accept lhash _ _ _ _ _ _ H) as (rec & Hrec & Hcfg & Hdb & Hver & Hnone).
     exists rec, stored. repeat split; auto.
     destruct (assoc (verified_name (PS "id_token")) stored) as [v|] eqn:Ev.
-    - right. destruct (Hver v eq_refl) as (t & vd & n & sub & Ht & _ & Hvd & _ & _ & Hsub & Hmap & Hclash).
+    - right. destruct (Hver v eq_refl) as (t & vd & n & sub & Ht & _ & Hvd & _ & _ & Hsub & Hmap & Hclash & _).
       exists sub, t. repeat split; auto.
       apply verify_id_token_stages in Hvd as (_ & _ & _ & Hf & _).
       eapply from_dict_cstr_entry; eauto; reflexivity.
@@ -546,14 +553,19 @@ Section World.
   (* what the checks of a refresh response establish about a verified ID Token it carries *)
   Lemma refresh_bound_inv c st rec d1 idt :
     refresh_bound c st rec d1 = Ok tt -> assoc (verified_name (PS "id_token")) d1 = Some (VDict idt) ->
-    (forall n, assoc (PS "nonce") idt = Some (VStr n) -> assoc n (cl_map c) = Some st) /\
+    (forall n, assoc (PS "nonce") idt = Some (VStr n) ->
+       assoc n (cl_map c) = Some st /\ assoc (PS "nonce") rec = Some (VStr n)) /\
     (forall before s, assoc (verified_name (PS "id_token")) rec = Some (VDict before) ->
                       assoc (PS "sub") before = Some (VStr s) -> assoc (PS "sub") idt = Some (VStr s)).
   Proof.
     unfold refresh_bound. intros H Hv. rewrite Hv in H.
     apply bind_ok in H as ([] & Hsub & Hn). split.
     - intros n En. rewrite En in Hn. destruct (assoc n (cl_map c)) as [s|]; try discriminate.
-      destruct (str_eqb s st) eqn:E; try discriminate. apply str_eqb_eq in E. congruence.
+      destruct (str_eqb s st) eqn:E; try discriminate. apply str_eqb_eq in E. cbn [andb] in Hn.
+      destruct (option_eqb pyval_eqb (assoc (PS "nonce") rec) (Some (VStr n))) eqn:Ern; try discriminate.
+      split; [congruence|].
+      destruct (assoc (PS "nonce") rec) as [v0|]; cbn in Ern; try discriminate.
+      apply pyval_eqb_vstr_r in Ern. congruence.
     - intros before s Hb Hs. rewrite Hb, Hs in Hsub.
       destruct (assoc (PS "sub") idt) as [v|]; cbn in Hsub; try discriminate.
       destruct (pyval_eqb v (VStr s)) eqn:E; try discriminate.
@@ -570,7 +582,8 @@ Section World.
       (forall v, assoc (verified_name (PS "id_token")) stored = Some v ->
          exists t vd, r_idt r = Some t /\ v = VDict vd /\
            verify_id_token lhash (svc_kwargs (cl_cfg c)) false None None t now = Ok vd /\
-           (forall n, assoc (PS "nonce") vd = Some (VStr n) -> assoc n (cl_map c) = Some st) /\
+           (forall n, assoc (PS "nonce") vd = Some (VStr n) ->
+              assoc n (cl_map c) = Some st /\ assoc (PS "nonce") rec = Some (VStr n)) /\
            (forall before s, assoc (verified_name (PS "id_token")) rec = Some (VDict before) ->
                              assoc (PS "sub") before = Some (VStr s) -> assoc (PS "sub") vd = Some (VStr s))).
   Proof.
@@ -589,7 +602,7 @@ Section World.
       by (erewrite <- stored_assoc; eauto using key_not_expires_ver).
     destruct (Hver v Hd1) as (t & vd & Ht & -> & Hvd).
     destruct (refresh_bound_inv _ _ _ _ _ Hb Hd1) as (Hn & Hs).
-    exists t, vd. repeat split; auto.
+    exists t, vd. split; [exact Ht|]. split; [reflexivity|]. split; [exact Hvd|]. split; [exact Hn|exact Hs].
   Qed.
 
   (* ---- worlds ---- *)
@@ -1090,7 +1103,7 @@ Section Backchannel.
   Theorem world_backchannel_recorded w o st w' stored :
     backchannel_of o = Some st -> step lhash w o = (w', Ok stored) ->
     exists i rec, op_target w o = Some i /\ rec_of w i st = Some rec /\
-      rec_of w' i st = Some (dict_update rec stored) /\
+      rec_of w' i st = Some (dict_update rec (keep_nonce rec stored)) /\
       (forall j s, j <> i \/ s <> st -> rec_of w' j s = rec_of w j s).
   Proof.
     intros Hb H.
@@ -1157,7 +1170,7 @@ Section Backchannel.
       destruct (step_refresh_accept lhash _ _ _ _ _ _ Hf) as (rec & rt & Hrec & _ & _ & Hver).
       destruct (Hver v Hv) as (t & vd & _ & -> & _ & Hn & Hs).
       exists vd, rec. split; [reflexivity|]. split; [unfold rec_of; rewrite Hi; apply db_get_assoc; exact Hrec|].
-      split; [|exact Hs]. intros n En. unfold map_of. rewrite Hi. apply Hn; exact En. }
+      split; [|exact Hs]. intros n En. unfold map_of. rewrite Hi. apply (Hn n En). }
     destruct o as [i s0 nonce req|i r now|i s0 r now|i s0 u|s0 r now|i s0 r now|s0 r now|s0 u];
       cbn [refresh_of] in Hr; inversion Hr; subst s0; cbn [step op_target] in *.
     - destruct (Hcl i H) as (vd & rec & ? & ? & ? & ?). exists i, vd, rec. auto.
@@ -1165,6 +1178,258 @@ Section Backchannel.
       destruct (Hcl i H) as (vd & rec & ? & ? & ? & ?). exists i, vd, rec. auto.
   Qed.
 End Backchannel.
+
+(* ================================================================================================
+   the nonce clause of C08 over histories: after any sequence of operations in which the relying party
+   draws fresh states and nonces, an ID Token accepted for state s - in an authorization response, a token
+   response or a refresh response, on a client or through the RPHandler - carries the nonce the request of s
+   was sent with.  Neither the sub -> state / sid -> state bindings that share the key map with the nonces,
+   nor members of earlier responses, ever make another nonce acceptable.
+   ================================================================================================ *)
+Lemma dict_update_assoc_none (a b : list (pystr * pyval)) k : assoc k b = None -> assoc k (dict_update a b) = assoc k a.
+Proof.
+  unfold dict_update. revert a. induction b as [|[k' v] r IH]; intros a H; cbn [fold_left]; [reflexivity|].
+  cbn [assoc] in H. destruct (str_eqb k k') eqn:E; [discriminate|].
+  rewrite (IH _ H). cbn [fst snd]. apply assoc_aset_other. intro; subst. rewrite str_eqb_refl in E. discriminate.
+Qed.
+
+Lemma dict_update_assoc_only (a b : list (pystr * pyval)) k x :
+  (forall v, In (k, v) b -> v = x) -> (has_key k b = true \/ assoc k a = Some x) -> assoc k (dict_update a b) = Some x.
+Proof.
+  unfold dict_update. revert a. induction b as [|[k' v] r IH]; intros a Hall Hk; cbn [fold_left].
+  - destruct Hk as [Hk|Hk]; [discriminate|exact Hk].
+  - apply IH; [intros v0 Hin; apply Hall; now right|].
+    cbn [fst snd]. destruct (str_eqb k k') eqn:E.
+    + apply str_eqb_eq in E. subst k'. right. rewrite (Hall v) by now left. apply assoc_aset_same.
+    + destruct Hk as [Hk|Hk].
+      * left. unfold has_key in *. cbn [assoc] in Hk. rewrite E in Hk. exact Hk.
+      * right. rewrite assoc_aset_other; auto. intro; subst. rewrite str_eqb_refl in E. discriminate.
+Qed.
+
+Lemma drop_nonce_none info : assoc (PS "nonce") (drop_nonce info) = None.
+Proof. unfold drop_nonce. apply (assoc_filter_drop (fun k => negb (str_eqb k (PS "nonce")))). now rewrite str_eqb_refl. Qed.
+
+(* Current.update never replaces the nonce a record was created with *)
+Lemma db_update_keeps_nonce db st0 info s rec n :
+  assoc s db = Some rec -> assoc (PS "nonce") rec = Some (VStr n) ->
+  exists rec', assoc s (db_update db st0 info) = Some rec' /\ assoc (PS "nonce") rec' = Some (VStr n).
+Proof.
+  intros Hs Hn. destruct (str_eqb s st0) eqn:E.
+  - apply str_eqb_eq in E. subst st0. rewrite db_update_same, Hs. eexists. split; [reflexivity|].
+    unfold keep_nonce. rewrite Hn. rewrite dict_update_assoc_none; [exact Hn|apply drop_nonce_none].
+  - exists rec. split; [|exact Hn]. rewrite db_update_other; auto. intro; subst. rewrite str_eqb_refl in E. discriminate.
+Qed.
+
+Section NonceHistory.
+  Variable lhash : pystr -> pystr -> pystr.
+
+  (* the sessions of client i: each has its record, the record still names the nonce it was sent with, and that
+     nonce is still bound to it *)
+  Definition nonce_inv (w : list (pystr * client)) (i : pystr) (L : list (pystr * pystr)) : Prop :=
+    forall st n, In (st, n) L ->
+      (exists rec, rec_of w i st = Some rec /\ assoc (PS "nonce") rec = Some (VStr n)) /\
+      map_of w i n = Some st /\ n <> [].
+
+  Lemma nonce_inv_unique w i L st n n' : nonce_inv w i L -> In (st, n) L -> In (st, n') L -> n = n'.
+  Proof.
+    intros Hinv H1 H2. destruct (Hinv _ _ H1) as ((r1 & Hr1 & Hn1) & _). destruct (Hinv _ _ H2) as ((r2 & Hr2 & Hn2) & _).
+    congruence.
+  Qed.
+
+  (* every client step leaves the record of every state in place, with the nonce it names *)
+  Lemma upd_keeps_record_nonce (w : list (pystr * client)) i0 c st0 stored m i s rec n :
+    assoc i0 w = Some c -> rec_of w i s = Some rec -> assoc (PS "nonce") rec = Some (VStr n) ->
+    exists rec', rec_of (w_set w i0 (mkClient (cl_cfg c) (db_update (cl_db c) st0 stored) m)) i s = Some rec' /\
+                 assoc (PS "nonce") rec' = Some (VStr n).
+  Proof.
+    intros Hi0 Hr Hn. unfold rec_of, w_set in *. destruct (str_eqb i0 i) eqn:E.
+    - apply str_eqb_eq in E. subst i0. rewrite assoc_aset_same. rewrite Hi0 in Hr. cbn [cl_db].
+      eapply db_update_keeps_nonce; eauto.
+    - rewrite assoc_aset_other; [eauto|]. intro; subst. rewrite str_eqb_refl in E. discriminate.
+  Qed.
+
+  Lemma step_keeps_record_nonce w o w' out i s rec n :
+    step lhash w o = (w', out) -> (forall j st nonce req, o <> OBegin j st nonce req) ->
+    rec_of w i s = Some rec -> assoc (PS "nonce") rec = Some (VStr n) ->
+    exists rec', rec_of w' i s = Some rec' /\ assoc (PS "nonce") rec' = Some (VStr n).
+  Proof.
+    intros H Hnb Hr Hn.
+    destruct (backchannel_of o) as [st0|] eqn:Hb.
+    - destruct (world_backchannel_key lhash _ _ _ _ _ Hb H) as [(_ & ->)|(i0 & c & rec0 & stored & m & _ & Hi0 & _ & _ & ->)]; [eauto|].
+      eapply upd_keeps_record_nonce; eauto.
+    - destruct o as [j st nonce req|i0 r now|? ? ? ?|? ? ?|? ? ?|? ? ? ?|? ? ?|? ?]; cbn [backchannel_of] in Hb; try discriminate.
+      + exfalso. eapply Hnb; reflexivity.
+      + cbn [step] in H. apply on_client_inv in H as [(_ & -> & _)|(c & c' & Hi0 & Hf & ->)]; [eauto|].
+        apply step_authz_shape in Hf as [->|(st0 & rec0 & stored & _ & _ & _ & ->)].
+        * rewrite w_set_same; eauto.
+        * eapply upd_keeps_record_nonce; eauto.
+  Qed.
+
+  Lemma sent_by_app i a b : sent_by i (a ++ b) = (sent_by i a ++ sent_by i b)%list.
+  Proof.
+    induction a as [|o r IH]; cbn; [reflexivity|].
+    destruct o; cbn; try exact IH. destruct (str_eqb i0 i); cbn; rewrite IH; reflexivity.
+  Qed.
+
+  (* one step of a history preserves the invariant *)
+  Lemma step_nonce_inv w o w' out i L :
+    nonce_inv w i L -> fresh_begin w o -> step lhash w o = (w', out) -> nonce_inv w' i (L ++ sent_by i [o]).
+  Proof.
+    intros Hinv Hfresh H.
+    destruct o as [j st0 nonce req|i0 r now|i0 st0 r now|i0 st0 u|st0 r now|i0 st0 r now|st0 r now|st0 u].
+    1: {
+      cbn [step] in H. cbn [fresh_begin] in Hfresh. destruct Hfresh as (Hcl & Hfr & Hfm & Hne & Hhas & Honly).
+      unfold has_key in Hcl. destruct (assoc j w) as [c|] eqn:Ej; [|discriminate]. clear Hcl.
+      inversion H; subst w'. clear H. cbn [sent_by].
+      intros st n Hin. apply in_app_or in Hin as [Hin|Hin].
+      - destruct (Hinv _ _ Hin) as ((rec & Hr & Hn) & Hm & Hnn).
+        unfold rec_of, map_of, w_set in *. destruct (str_eqb j i) eqn:E.
+        + apply str_eqb_eq in E. subst j. rewrite assoc_aset_same. rewrite Ej in *. cbn [step_begin cl_db cl_map].
+          assert (st0 <> st) by (intro; subst; congruence).
+          assert (nonce <> n) by (intro; subst; congruence).
+          rewrite !assoc_aset_other by auto. split; [eauto|]. split; auto.
+        + rewrite assoc_aset_other by (intro; subst; rewrite str_eqb_refl in E; discriminate). split; [eauto|]. split; auto.
+      - destruct (str_eqb j i) eqn:E; [|destruct Hin]. apply str_eqb_eq in E. subst j.
+        destruct Hin as [Heq|[]]. inversion Heq; subst st n.
+        unfold rec_of, map_of, w_set. rewrite assoc_aset_same. cbn [step_begin cl_db cl_map]. rewrite !assoc_aset_same.
+        split; [|split; auto]. eexists. split; [reflexivity|].
+        apply dict_update_assoc_only; [exact Honly|left; exact Hhas]. }
+    all: cbn [sent_by]; rewrite app_nil_r; intros st n Hin; destruct (Hinv _ _ Hin) as ((rec & Hr & Hn) & Hm & Hnn);
+      (split; [eapply step_keeps_record_nonce; eauto; intros; discriminate|]); (split; [|exact Hnn]);
+      eapply step_keeps_nonce_binding; eauto.
+  Qed.
+
+  Lemma run_nonce_inv : forall ops w i L,
+    nonce_inv w i L -> fresh_history lhash w ops -> nonce_inv (run lhash w ops) i (L ++ sent_by i ops).
+  Proof.
+    induction ops as [|o r IH]; intros w i L Hinv Hf.
+    - cbn. rewrite app_nil_r. exact Hinv.
+    - cbn [run]. cbn [fresh_history] in Hf. destruct Hf as [Hfo Hfr].
+      destruct (step lhash w o) as [w1 out] eqn:E. cbn [fst] in *.
+      change (o :: r) with ([o] ++ r)%list. rewrite sent_by_app, app_assoc.
+      apply IH; [|exact Hfr]. eapply step_nonce_inv; eauto.
+  Qed.
+
+  Lemma init_nonce_inv cfgs i : nonce_inv (init_world cfgs) i [].
+  Proof. intros st n []. Qed.
+
+  Lemma history_nonce_inv cfgs ops i :
+    fresh_history lhash (init_world cfgs) ops -> nonce_inv (run lhash (init_world cfgs) ops) i (sent_by i ops).
+  Proof. intro Hf. apply (run_nonce_inv ops _ i [] (init_nonce_inv cfgs i) Hf). Qed.
+
+  Lemma history_invariant cfgs ops i st n :
+    fresh_history lhash (init_world cfgs) ops -> In (st, n) (sent_by i ops) ->
+    (exists rec, rec_of (run lhash (init_world cfgs) ops) i st = Some rec /\ assoc (PS "nonce") rec = Some (VStr n)) /\
+    map_of (run lhash (init_world cfgs) ops) i n = Some st /\ n <> [].
+  Proof. intros Hf Hin. exact (history_nonce_inv cfgs ops i Hf st n Hin). Qed.
+
+  Lemma issued_sent_by ops i st : In (i, st) (issued ops) -> exists n, In (st, n) (sent_by i ops).
+  Proof.
+    induction ops as [|o r IH]; cbn; [intros []|].
+    destruct o as [j s nonce req| | | | | | |]; cbn; auto.
+    intros [Heq|Hin].
+    - inversion Heq; subst. rewrite str_eqb_refl. exists nonce. now left.
+    - destruct (IH Hin) as (n & Hn). exists n. destruct (str_eqb j i); [right|]; exact Hn.
+  Qed.
+
+  (* what each service establishes about the verified ID Token it hands back, in terms of the RECORD of the
+     session: a non-empty nonce named by the record is the nonce of the token (a refresh response may also carry
+     an ID Token without nonce) *)
+  Definition token_nonce_is (o : op) (vd : record) (n : pystr) : Prop :=
+    (forall x, assoc (PS "nonce") vd = Some x -> x = VStr n) /\
+    (refresh_of o = None -> assoc (PS "nonce") vd = Some (VStr n)).
+
+  Lemma accepted_nonce_of_record w o w' stored i st vd :
+    step lhash w o = (w', Ok stored) -> idtoken_op o = true -> has_key (PS "error") stored = false ->
+    op_target w o = Some i -> accepted_for o stored st ->
+    assoc (verified_name (PS "id_token")) stored = Some (VDict vd) ->
+    exists rec, rec_of w i st = Some rec /\
+      forall n, assoc (PS "nonce") rec = Some (VStr n) -> n <> [] -> token_nonce_is o vd n.
+  Proof.
+    intros H Hop Herr Ht Hfor Hv.
+    assert (Htok : forall j s r now, on_client w j (fun c => step_token lhash c s r now) = (w', Ok stored) ->
+              exists rec, rec_of w j s = Some rec /\
+                forall n, assoc (PS "nonce") rec = Some (VStr n) -> n <> [] ->
+                  (forall x, assoc (PS "nonce") vd = Some x -> x = VStr n) /\ assoc (PS "nonce") vd = Some (VStr n)).
+    { intros j s r now Hon. apply on_client_inv in Hon as [(_ & _ & Hout)|(c & c' & Hj & Hf & _)]; [discriminate|].
+      destruct (step_token_accept lhash _ _ _ _ _ _ Hf) as (rec & Hrec & _ & _ & Hver & _).
+      destruct (Hver _ Hv) as (t & vd0 & n0 & sub & _ & Heq & _ & Hn0 & _ & _ & _ & _ & Hrn). inversion Heq; subst vd0.
+      exists rec. split; [unfold rec_of; rewrite Hj; apply db_get_assoc; exact Hrec|].
+      intros n Hn _. assert (n0 = n) by congruence. subst n0. split; [intros x Hx; congruence|exact Hn0]. }
+    assert (Href : forall j s r now, on_client w j (fun c => step_refresh lhash c s r now) = (w', Ok stored) ->
+              exists rec, rec_of w j s = Some rec /\
+                forall n, assoc (PS "nonce") rec = Some (VStr n) -> n <> [] ->
+                  forall x, assoc (PS "nonce") vd = Some x -> x = VStr n).
+    { intros j s r now Hon. apply on_client_inv in Hon as [(_ & _ & Hout)|(c & c' & Hj & Hf & _)]; [discriminate|].
+      pose proof Hf as Hf0.
+      destruct (step_refresh_accept lhash _ _ _ _ _ _ Hf) as (rec & rt & Hrec & _ & _ & Hver).
+      destruct (Hver _ Hv) as (t & vd0 & _ & Heq & _ & Hn0 & _). inversion Heq; subst vd0.
+      exists rec. split; [unfold rec_of; rewrite Hj; apply db_get_assoc; exact Hrec|].
+      intros n Hn _ x Hx.
+      (* a nonce claim the model accepts in a refresh response is a string *)
+      assert (Hstr : exists n0, x = VStr n0).
+      { unfold step_refresh in Hf0. rewrite Hrec in Hf0.
+        destruct (assoc (PS "refresh_token") rec) as [[| | |[|x0 s0]| | |]|]; try (pair_absurd Hf0).
+        destruct (r_params r); [pair_absurd Hf0|].
+        destruct (from_dict token_resp_params _ []) as [[|y d]| |]; try (pair_absurd Hf0).
+        destruct (has_key (PS "error") (y :: d)); [pair_absurd Hf0|].
+        destruct (token_response_verify lhash _ _ _ now) as [d1| |] eqn:Hvf; try (pair_absurd Hf0).
+        destruct (refresh_bound c s rec d1) as [[]| |] eqn:Hb; try (pair_absurd Hf0).
+        destruct (with_expires_at _ now) as [s0'| |] eqn:Ew; try (pair_absurd Hf0).
+        inversion Hf0; subst s0'.
+        assert (Hd1 : assoc (verified_name (PS "id_token")) d1 = Some (VDict vd))
+          by (erewrite <- stored_assoc; eauto using key_not_expires_ver).
+        unfold refresh_bound in Hb. rewrite Hd1 in Hb. apply bind_ok in Hb as ([] & _ & Hb).
+        rewrite Hx in Hb. destruct x as [| | |n0| | |]; try discriminate. eauto. }
+      destruct Hstr as (n0 & ->). destruct (Hn0 n0 Hx) as (_ & Hrn). congruence. }
+    unfold token_nonce_is.
+    destruct o as [j s nonce req|i0 r now|i0 s r now|i0 s u|s r now|i0 s r now|s r now|s u]; cbn [idtoken_op] in Hop; try discriminate;
+      cbn [step op_target accepted_for backchannel_of refresh_of] in *.
+    - (* authorization response *)
+      inversion Ht; subst i0.
+      apply on_client_inv in H as [(_ & _ & Hout)|(c & c' & Hi & Hf & _)]; [discriminate|].
+      destruct (step_authz_accept lhash _ _ _ _ _ Hf Herr) as (st1 & rec & Hst1 & Hrec & _ & _ & _ & _ & Hver).
+      assert (st1 = st) by congruence. subst st1.
+      destruct (Hver _ Hv) as (t & code & atok & vd0 & _ & Heq & _ & Hnonce). inversion Heq; subst vd0.
+      exists rec. split; [unfold rec_of; rewrite Hi; apply db_get_assoc; exact Hrec|].
+      intros n Hn Hnn. pose proof (Hnonce n Hn Hnn) as Hvn. split; [intros x Hx; congruence|intros _; exact Hvn].
+    - inversion Ht; subst i0. subst s. destruct (Htok _ _ _ _ H) as (rec & Hr & Hall). exists rec. split; [exact Hr|].
+      intros n Hn Hnn. destruct (Hall n Hn Hnn). split; auto.
+    - subst s. destruct (state2issuer w st) as [[| | |j| | |]|]; try discriminate. inversion Ht; subst j.
+      destruct (Htok _ _ _ _ H) as (rec & Hr & Hall). exists rec. split; [exact Hr|].
+      intros n Hn Hnn. destruct (Hall n Hn Hnn). split; auto.
+    - inversion Ht; subst i0. subst s. destruct (Href _ _ _ _ H) as (rec & Hr & Hall). exists rec. split; [exact Hr|].
+      intros n Hn Hnn. split; [apply (Hall n Hn Hnn)|discriminate].
+    - subst s. destruct (state2issuer w st) as [[| | |j| | |]|]; try discriminate. inversion Ht; subst j.
+      destruct (Href _ _ _ _ H) as (rec & Hr & Hall). exists rec. split; [exact Hr|].
+      intros n Hn Hnn. split; [apply (Hall n Hn Hnn)|discriminate].
+  Qed.
+
+  (* THE NONCE CLAUSE OVER HISTORIES *)
+  Theorem history_nonce_sent cfgs pre o w' stored i st vd :
+    fresh_history lhash (init_world cfgs) pre ->
+    step lhash (run lhash (init_world cfgs) pre) o = (w', Ok stored) ->
+    idtoken_op o = true -> has_key (PS "error") stored = false ->
+    op_target (run lhash (init_world cfgs) pre) o = Some i -> accepted_for o stored st ->
+    assoc (verified_name (PS "id_token")) stored = Some (VDict vd) ->
+    exists n, In (st, n) (sent_by i pre) /\ (forall n', In (st, n') (sent_by i pre) -> n' = n) /\
+      (forall x, assoc (PS "nonce") vd = Some x -> x = VStr n) /\
+      (refresh_of o = None -> assoc (PS "nonce") vd = Some (VStr n)).
+  Proof.
+    intros Hfresh H Hop Herr Ht Hfor Hv.
+    pose proof (history_nonce_inv cfgs pre i Hfresh) as Hinv.
+    destruct (accepted_nonce_of_record _ _ _ _ _ _ _ H Hop Herr Ht Hfor Hv) as (rec & Hr & Hall).
+    assert (Hissued : In (i, st) (issued pre)).
+    { unfold rec_of in Hr. destruct (assoc i (run lhash (init_world cfgs) pre)) as [c|] eqn:Ec; [|discriminate].
+      eapply history_states_issued; eauto. unfold has_key. rewrite Hr. reflexivity. }
+    destruct (issued_sent_by _ _ _ Hissued) as (n & Hin).
+    destruct (Hinv _ _ Hin) as ((rec' & Hr' & Hn) & _ & Hnn).
+    assert (rec' = rec) by congruence. subst rec'.
+    exists n. split; [exact Hin|]. split.
+    - intros n' Hin'. eapply nonce_inv_unique; eauto.
+    - apply (Hall n Hn Hnn).
+  Qed.
+End NonceHistory.
 
 (* ================================================================================================
    hybrid / implicit front-channel responses (response types "code id_token", "code token",
